@@ -297,10 +297,15 @@ func (g *Gen) pickPower(s Snap, t int) uint64 {
 			if d == 0 {
 				d = 1
 			}
-			if r.P(35) && uint64(curP) > d {
-				return (uint64(curP) - d) * 1_000_000
+			// half of the time with a sub-unit remainder: the voting-power change is the same, the token change is not
+			rem := uint64(0)
+			if r.P(50) {
+				rem = uint64(r.N(1_000_000))
 			}
-			return (uint64(curP) + d) * 1_000_000
+			if r.P(35) && uint64(curP) > d {
+				return (uint64(curP)-d)*1_000_000 + rem
+			}
+			return (uint64(curP)+d)*1_000_000 + rem
 		}
 		return uint64(curP+1) * 1_000_000
 	default:
@@ -565,6 +570,13 @@ func (g *Gen) GenTx(s Snap, height int64) Tx {
 		op := r.N(NOPS)
 		if len(fresh) > 0 && (envelope || r.P(75)) {
 			op = r.Pick(fresh)
+		}
+		if !envelope && r.P(12) {
+			// a validator that is out of the set (jailed, removed, displaced) applies again under its own operator address (refused)
+			out := g.classOps(s, func(o OpInfo) bool { return o.Exists && (o.Jailed || o.Status != 3 || o.Tokens == 0) })
+			if len(out) > 0 {
+				op = r.Pick(out)
+			}
 		}
 		return Tx{Signer: op, Msgs: []Msg{g.msgCreate(op, s)}}
 	case 4: // PARAMS
